@@ -745,3 +745,17 @@ Theorem C10_rule_renumbering_records :
     (forall u v, has_node A u = true -> has_node A v = true -> adj A' (s u) (s v) = adj A u v).
 Proof. exact rule_renumbering_records. Qed.
 Print Assumptions C10_rule_renumbering_records.
+
+(** Reaction string side -> graph -> SMILES ON THE REACTION PATH under the RDKit contracts (read: the sanitised molecule of a fully
+    mapped side of a reaction string is a record in [rdmol_ok]; write: rebuilding a molecule from the same atoms and the same bonds,
+    in any bond order, writes the canonical SMILES): graph_to_smi of the graph rsmi_to_graph builds is the canonical SMILES of the
+    side.  Both premises are about RDKit and are monitored (rdmol_ok per molecule; oracle clause smiles-roundtrip). *)
+Theorem C10_rsmi_side_roundtrip_under_rdkit_contract :
+  forall (Smi : Type) (read : Smi -> option rmol) (write : list watom * list (N * N * Z) -> option Smi) (canon : Smi -> Smi),
+    (forall s m, read s = Some m -> rdmol_ok m = true /\ forallb (fun a => negb (r_map a =? 0)) (fst m) = true) ->
+    (forall s m bonds', read s = Some m -> (forall i j, bond_find i j bonds' = bond_find i j (snd m)) ->
+                        write (map atom_back (fst m), bonds') = Some (canon s)) ->
+    forall s m, read s = Some m ->
+      match graph_to_mol (mol_to_graph m true true) with Some w => write w | None => None end = Some (canon s).
+Proof. exact rsmi_side_roundtrip_under_contract. Qed.
+Print Assumptions C10_rsmi_side_roundtrip_under_rdkit_contract.
